@@ -1044,15 +1044,21 @@ def bi_allocated(st, args, kw):
 def _dict_fromkeys(st, args):
     """dict.fromkeys(keys): a new dict with exactly the elements of `keys` as keys (first occurrence order),
     every value None.  Value type Any (boxed); the declared type of the receiving local fixes it."""
-    s, kt = B.seq_of(st, args[0])
-    if len(args) > 1:
-        raise Undecided('dict.fromkeys with a value')
+    src = args[0]
+    if src.t.kind == 'dict':
+        s, kt = st.dict_parts(src.z, src.t.args[0], src.t.args[1])[0], src.t.args[0]
+    else:
+        s, kt = B.seq_of(st, src)
     vt = T.Ty('union', ())
     ks = T.sort_of(kt)
     ref = st.new_ref('dict')
     keys = B.seq_fresh(st, ks, 'fk')
     has = st.fresh(z3.ArraySort(ks, z3.BoolSort()), 'fkh')
-    mp = z3.K(ks, T.PyVal.none)
+    val = T.PyVal.none
+    if len(args) > 1:
+        v = args[1]
+        val = v.z if v.t.kind == 'union' else T.box(v.t, v.z)
+    mp = z3.K(ks, val)
     st.dict_store(ref, kt, vt, keys, mp, has)
     st.assume(st.dict_wf(ref, kt, vt))
     st.nfresh += 1
